@@ -199,13 +199,13 @@ func c02(w *core.World, r *core.Report) {
 			r.Check(core.CanFollow(main, next), "PERSIST-ALL", core.Site(low, "loop continues after persisting"), w.InstrPos(main), "after persisting one intent the loop must be able to reach the next one (no break)")
 			r.Check(!skip, "PERSIST-ALL", core.Site(low, "no intent skipped"), w.InstrPos(main), fmt.Sprintf("a path through the loop body reaches the next iteration without persisting the intent (blocks %v)", tr))
 			// every success return that is neither the dry-run nor the validation-failed exit comes after the persist loop
-			dry := core.Param(low, "dryRun")
+			dry := dryFlagOf(w, low, 0)
 			for _, ret := range core.Returns(low) {
 				ev := errorOperand(ret)
 				if ev == nil || !core.IsNilConst(ev) {
 					continue
 				}
-				if core.GuardedByBoolCall(ret, true, kHasErrors) || (dry != nil && core.GuardedByValue(ret, dry, true)) {
+				if core.GuardedByBoolCall(ret, true, kHasErrors) || (dry != nil && dry.guarded(ret, true)) {
 					continue
 				}
 				r.Check(core.InstrBefore(rg, ret), "PERSIST-ALL", core.Site(low, "success return after the persist loop"), w.InstrPos(ret), "a successful, non-dry-run transaction returns only after the per-intent writes to the intended store (an accepted intent without device effect - shadowed, or deleted while shadowed - is still the owner's last accepted version)")
@@ -604,7 +604,7 @@ func c05(w *core.World, r *core.Report) {
 		okFw := len(fw) == 1
 		if okFw {
 			args := core.CallArgs(fw[0])
-			okFw = len(args) == 3 && args[1] == ssa.Value(core.Param(adapter, "transaction")) && args[2] == ssa.Value(core.Param(adapter, "dryRun"))
+			okFw = len(args) == 3 && args[1] == ssa.Value(core.Param(adapter, "transaction")) && (args[2] == ssa.Value(core.Param(adapter, "dryRun")) || (core.Param(adapter, "dryRun") != nil && encodesBool(args[2], core.Param(adapter, "dryRun")) != nil))
 		}
 		r.Check(okFw, "ROLLBACK-REACH", core.Site(adapter, "forwards to lowlevelTransactionSet"), w.Pos(adapter.Pos()), "the rollback runs the same pipeline with the given transaction")
 		// GetRollbackTransaction
